@@ -691,3 +691,51 @@ Proof.
   pose proof (wf_of_dev_ok _ H1 H2) as W. split; [exact W|].
   intros v c2 nm mc stt dd add L. apply C15_noninterference_thm; assumption.
 Qed.
+
+(* ---------- the last-state text the firmware itself produces (wifi status messages) ---------- *)
+From V Require Import Gen.StateSites.
+Definition site_publicb (r : list Z) : bool :=
+  (nthz r 1 =? 0) ||
+  existsb (fun f : Z * Z => (nthz r 3 =? fst f) && src_public (S_field (fst f) (snd f)))
+          [(OFF_SSID, SZ_SSID); (OFF_SERVER, SZ_SERVER); (OFF_EMAIL, SZ_EMAIL); (OFF_PREFIX, SZ_PREFIX)].
+(* every generated call site formats at most a public text field (re-proved on every run) *)
+Lemma wifi_sites_public : forallb site_publicb WIFI_SITES = true.
+Proof. vm_compute. reflexivity. Qed.
+
+Lemma wifi_msg_public c1 c2 r : wf_cfg c1 -> low_equiv c1 c2 -> site_publicb r = true -> wifi_msg c1 r = wifi_msg c2 r.
+Proof.
+  intros W L P. unfold wifi_msg. destruct (nthz r 1 =? 0) eqn:E; [reflexivity|].
+  unfold site_publicb in P. rewrite E in P. cbn [orb] in P. apply existsb_exists in P. destruct P as [f [_ Pf]].
+  apply andb_true_iff in Pf. destruct Pf as [Eo Pp]. apply Z.eqb_eq in Eo.
+  rewrite Eo. rewrite (field_public c1 c2 (fst f) (snd f) W L Pp). reflexivity.
+Qed.
+Lemma wifi_site_in n r : wifi_site n = Some r -> site_publicb r = true.
+Proof.
+  unfold wifi_site. intros H. apply find_some in H. destruct H as [Hin _].
+  pose proof wifi_sites_public as P. rewrite forallb_forall in P. apply P. exact Hin.
+Qed.
+Lemma wifi_status_public c1 c2 tl n : wf_cfg c1 -> low_equiv c1 c2 -> wifi_status c1 tl n = wifi_status c2 tl n.
+Proof.
+  intros W L. unfold wifi_status. destruct tl as [text last]. destruct (last =? n); [reflexivity|].
+  destruct (n =? ST_GOT_IP); [reflexivity|]. destruct (wifi_site n) as [r|] eqn:E; [|reflexivity].
+  rewrite (wifi_msg_public c1 c2 r W L (wifi_site_in n r E)). reflexivity.
+Qed.
+Lemma log_step_public c1 c2 tl e : wf_cfg c1 -> low_equiv c1 c2 -> log_step c1 tl e = log_step c2 tl e.
+Proof.
+  intros W L. unfold log_step. destruct e as [[k n] b]. destruct (k =? 0); [reflexivity|].
+  destruct (k =? 1); [|apply wifi_status_public; assumption].
+  destruct (snd tl =? ST_GOT_IP + 1); [apply wifi_status_public; assumption | reflexivity].
+Qed.
+Lemma state_of_public c1 c2 log : wf_cfg c1 -> low_equiv c1 c2 -> state_of c1 log = state_of c2 log.
+Proof.
+  intros W L. unfold state_of. generalize (@nil Z, ST_GOT_IP + 1). induction log as [|e r IH]; intros tl; cbn [fold_left]; [reflexivity|].
+  rewrite (log_step_public c1 c2 tl e W L). apply IH.
+Qed.
+
+Theorem C15_noninterference_firmware_state_thm : forall sg v c1 c2 nm mc log d add,
+  wf_cfg c1 -> low_equiv c1 c2 ->
+  observable sg v (mkenv c1 nm mc (state_of c1 log) d) add = observable sg v (mkenv c2 nm mc (state_of c2 log) d) add.
+Proof.
+  intros sg v c1 c2 nm mc log d add W L. rewrite (state_of_public c1 c2 log W L).
+  apply C15_noninterference_thm; assumption.
+Qed.
